@@ -27,6 +27,14 @@ atom("o_wild_https", "origins", "valid", ["https://*.example.com", "https://*.ex
 atom("o_wild_http", "origins", "valid", ["http://*.example.com", "foo://*.example.com:*"], wild=True, insecure=True)
 atom("o_psl_https", "origins", "valid", ["https://*.com", "https://*.com.", "https://*.co.uk:*", "https://*.github.io", "https://*.com:8443", "https://*.org"], wild=True, psl=True)
 atom("o_psl_http", "origins", "valid", ["http://*.com", "http://*.co.uk.:8080"], wild=True, psl=True, insecure=True)
+# public suffixes of every depth (3, 4 and 5 labels), by a wildcard rule of the list (`*.ck`, `*.kobe.jp`), private-section entries and
+# an unlisted TLD (default rule `*`); classification confirmed with golang.org/x/net/publicsuffix (DESIGN.md 11.5, seeded/C04-4)
+atom("o_psl_deep", "origins", "valid", ["https://*.k12.ma.us", "https://*.pvt.k12.ma.us", "https://*.s3.dualstack.us-east-1.amazonaws.com",
+                                        "https://*.execute-api.cn-north-1.amazonaws.com.cn:8080", "https://*.foo.ck", "https://*.foo.kobe.jp.",
+                                        "https://*.us-east-1.compute.amazonaws.com:*", "https://*.internal", "https://*.foo.sch.uk"], wild=True, psl=True)
+# look-alikes that are NOT public suffixes: exception rules of the list (`!www.ck`, `!city.kobe.jp`) and registrable domains under deep suffixes
+atom("o_wild_notpsl", "origins", "valid", ["https://*.www.ck", "https://*.city.kobe.jp", "https://*.school.pvt.k12.ma.us",
+                                           "https://*.compute.amazonaws.com", "https://*.blogspot.co.uk", "https://*.sch.uk"], wild=True)
 bad = ["invalid", "prohibited"]
 atom("o_null", "origins", "malformed", ["null"], reasons=bad)
 atom("o_file", "origins", "malformed", ["file:///somepath", "file://example.com"], reasons=bad)
